@@ -11,3 +11,4 @@ import GoNeat.Props.C18
 import GoNeat.Props.C09
 import GoNeat.Props.C09Exact
 import GoNeat.Props.C10
+import GoNeat.Props.C01
